@@ -43,6 +43,7 @@ class Outcome:
         self.handlers = kw.get("handlers")
         self.stats = kw.get("stats", {})
         self.line_promised = kw.get("line_promised", False)
+        self.dt = kw.get("dt")              # name of the key type / datatype that refused (conversion rejects)
         self.pinned = kw.get("pinned") or []
 
     def __repr__(self):
@@ -54,9 +55,10 @@ class Outcome:
 
 
 class _Reject(Exception):
-    def __init__(self, rule, lineno=None, url=None, value=None, promised=True):
+    def __init__(self, rule, lineno=None, url=None, value=None, promised=True, dt=None):
         Exception.__init__(self, rule)
         self.rule, self.lineno, self.url, self.value = rule, lineno, url, value
+        self.dt = dt
         self.promised = promised and lineno is not None
 
 
@@ -308,7 +310,7 @@ def ref_load(ast, resources, main_url, packages=None, env=None, sm=None, pin=Fal
         return out
     except _Reject as e:
         return Outcome("reject", rule=e.rule, lineno=e.lineno, url=e.url, value=e.value,
-                       line_promised=e.promised, pinned=pinned)
+                       line_promised=e.promised, pinned=pinned, dt=getattr(e, "dt", None))
     except _Unspec as e:
         return Outcome("unspec", zone=e.zone)
     except model.Unspecified as e:
@@ -388,7 +390,7 @@ def _ref_load(ast, resources, main_url, packages, env, sm, pinned=None):
             key, value, lineno, url = ev[1], ev[2], ev[3], ev[4]
             k = norm_key(T.kt, key)
             if k is None:
-                raise _Reject("key-conversion", lineno, url, value=key)
+                raise _Reject("key-conversion", lineno, url, value=key, dt=T.kt)
             target = None
             wild = None
             for it in T.items:
@@ -532,7 +534,7 @@ def _finish(sm, G, lineno, url, handlers, stats, pinned=None):
         if r[0] == "unspec":
             raise _Unspec("datatype:" + r[1])
         if r[0] != "ok":
-            raise _Reject("value-conversion", vl, vu, value=text, promised=vl is not None)
+            raise _Reject("value-conversion", vl, vu, value=text, promised=vl is not None, dt=it.dt)
         return tag_value(r[1])
 
     for it in U.items:
